@@ -111,3 +111,149 @@ Proof.
   - intros ch Hch. eapply spec_from_clamp; eassumption.
 Qed.
 Print Assumptions C11_reference_agrees.
+
+(* ======================================================================================
+   The consumers of the converted position in TextDocument: offset_at_position and
+   word_at_position (Model/DocQuery.v; reference Spec/DocQuerySpec.v over Spec/DocSpec.v).
+   Findings that stay in the code: F17 (utf-8 widths), F16' (past the end of the document the
+   result is a count of code units) and F31 (offset_at_position adds the length of the preceding
+   lines in client code units to a column counted in characters; pinned by
+   tests/test_document.py::test_offset_at_position_utf16, which expects 40 for (4,0) = 39
+   characters + 1 astral, and 28 for (3,8) = characters).
+   ====================================================================================== *)
+From Pygls Require Import Model.Doc Spec.DocSpec Proofs.DocProofs Model.DocQuery Spec.DocQuerySpec
+                          Proofs.DocQueryProofs.
+
+(* offset_at_position of a valid position (on a character boundary of an LSP line, beyond the
+   end of a line = that end, or on the empty last line) is the character offset it denotes *)
+Definition C11_offset_gen (G : encoding -> list N -> N * N -> bool) : Prop :=
+  forall e s p o, spec_offset e s p = Some o -> G e s p = true -> offset_at_position e s p = o.
+
+Definition C11_offset_statement : Prop := C11_offset_gen (fun _ _ _ => true).
+
+Theorem C11_offset_partial :
+  C11_offset_gen (fun e s p => query_guard_widths e s p && offset_guard_units e s p).
+Proof.
+  intros e s [l ch] o H G. apply andb_true_iff in G. destruct G as [G1 G2].
+  unfold spec_offset, spec_off, query_guard_widths, offset_guard_units in *. cbn [fst snd] in *.
+  destruct (spec_locate e s l ch 0) as [[o' pre]|] eqn:E; [|discriminate].
+  injection H as ->. exact (offset_exact e s l ch o pre E G1 G2).
+Qed.
+Print Assumptions C11_offset_partial.
+
+(* utf-32: every valid position, no guard; utf-16: whenever no character beyond the BMP precedes
+   the position's line (for the end-of-document position: occurs in the text) *)
+Theorem C11_offset_utf32 :
+  forall s p o, spec_offset Utf32 s p = Some o -> offset_at_position Utf32 s p = o.
+Proof.
+  intros s p o H. apply (C11_offset_partial Utf32 s p o H).
+  unfold query_guard_widths, offset_guard_units, spec_offset, spec_off in *.
+  destruct (spec_locate Utf32 s (fst p) (snd p) 0) as [[o' pre]|]; [reflexivity|discriminate].
+Qed.
+Theorem C11_offset_utf16 :
+  forall s p o, spec_offset Utf16 s p = Some o -> offset_guard_units Utf16 s p = true ->
+    offset_at_position Utf16 s p = o.
+Proof.
+  intros s p o H G. apply (C11_offset_partial Utf16 s p o H). rewrite G, andb_true_r.
+  unfold query_guard_widths, spec_offset, spec_off in *.
+  destruct (spec_locate Utf16 s (fst p) (snd p) 0) as [[o' pre]|]; [reflexivity|discriminate].
+Qed.
+
+(* what the code returns, exactly, guard or no guard on the units *)
+Theorem C11_offset_returns :
+  (forall e p, offset_at_position e [] p = 0) /\
+  (* past the end of the document: the length of the text in client code units *)
+  (forall e s l ch, s <> [] -> len (lsp_lines s) <= l ->
+     offset_at_position e s (l, ch) = client_num_units e s) /\
+  (* on a line: the character index on the line + the client units of the text before the line *)
+  (forall e s l ch o pre, s <> [] -> spec_locate e s l ch 0 = Some (o, pre) ->
+     widths_exact e pre = true ->
+     offset_at_position e s (l, ch) = len pre + client_num_units e (take (o - len pre) s)).
+Proof.
+  repeat split; [apply offset_empty|apply offset_past_eof|apply offset_on_line].
+Qed.
+
+(* F31: an astral character on an earlier line shifts the result (utf-16: text "😋\na", (1,0)) *)
+Theorem C11_offset_refuted_units :
+  exists s p o, spec_offset Utf16 s p = Some o /\ query_guard_widths Utf16 s p = true /\
+                offset_at_position Utf16 s p <> o.
+Proof. exists [0x1F60B; 10; 97], (1, 0), 2. vm_compute. repeat split. discriminate. Qed.
+
+(* F16': the end-of-document position of "😋\n" is offset 2; the code returns 3 *)
+Theorem C11_offset_refuted_eof :
+  exists s p o, spec_offset Utf16 s p = Some o /\ offset_at_position Utf16 s p <> o /\
+                len s < offset_at_position Utf16 s p.
+Proof. exists [0x1F60B; 10], (1, 0), 2. vm_compute. repeat split; discriminate. Qed.
+
+Theorem C11_offset_refuted : ~ C11_offset_statement.
+Proof.
+  intros H. specialize (H Utf16 [0x1F60B; 10; 97] (1, 0) 2 eq_refl eq_refl).
+  vm_compute in H. discriminate.
+Qed.
+Print Assumptions C11_offset_refuted.
+
+(* word_at_position *)
+Definition C11_word_gen (G : encoding -> list N -> N * N -> bool) : Prop :=
+  (* the word of the reference: the maximal run of word characters around the character index *)
+  (forall e s p w, spec_word e s p = Some w -> G e s p = true -> word_at_position e s p = w) /\
+  (* its shape on a line: line = a ++ ws ++ wp ++ b with a ++ ws the part of the line before the
+     position; only word characters; maximal on both sides *)
+  (forall e s l ch o pre, spec_locate e s l ch 0 = Some (o, pre) -> G e s (l, ch) = true ->
+     l < len (lsp_lines s) ->
+     exists a ws wp b,
+       nth (N.to_nat l) (lsp_lines s) [] = a ++ ws ++ wp ++ b /\ a ++ ws = pre /\
+       word_at_position e s (l, ch) = ws ++ wp /\ forallb is_word (ws ++ wp) = true /\
+       (a = [] \/ is_word (last a 0) = false) /\ (b = [] \/ is_word (hd 0 b) = false)) /\
+  (* a line that does not exist (also the empty last line): "" ; lines[row] is always in range *)
+  (forall e s l ch, len (lsp_lines s) <= l -> word_at_position e s (l, ch) = []) /\
+  (forall e ls l ch, l < len ls -> fst (fst (position_from_client_units e ls (l, ch))) = l).
+
+Definition C11_word_statement : Prop := C11_word_gen (fun _ _ _ => true).
+
+Theorem C11_word_partial : C11_word_gen query_guard_widths.
+Proof.
+  unfold C11_word_gen, query_guard_widths. repeat split.
+  - intros e s [l ch] w H G. unfold spec_word in H. cbn [fst snd] in *.
+    destruct (spec_locate e s l ch 0) as [[o pre]|] eqn:E; [|discriminate].
+    injection H as <-. exact (word_exact e s l ch o pre E G).
+  - intros e s l ch o pre E G Hl. cbn [fst snd] in G. rewrite E in G.
+    exact (word_shape e s l ch o pre E G Hl).
+  - apply word_past_eof.
+  - apply word_row_in_range.
+Qed.
+Print Assumptions C11_word_partial.
+
+(* utf-16 and utf-32: no guard *)
+Theorem C11_word_utf16_utf32 :
+  forall e s p w, e <> Utf8 -> spec_word e s p = Some w -> word_at_position e s p = w.
+Proof.
+  intros e s p w He H. apply (proj1 C11_word_partial e s p w H).
+  unfold query_guard_widths, spec_word in *.
+  destruct (spec_locate e s (fst p) (snd p) 0) as [[o pre]|]; [|discriminate].
+  destruct e; [congruence|reflexivity|reflexivity].
+Qed.
+Print Assumptions C11_word_utf16_utf32.
+
+(* F17: utf-8, text "é b", position (0,2) is just after é: no word there; the code answers "b" *)
+Theorem C11_word_refuted_utf8 :
+  exists s p w, spec_word Utf8 s p = Some w /\ word_at_position Utf8 s p <> w.
+Proof. exists [0xE9; 32; 98], (0, 2), []. vm_compute. split; [reflexivity|discriminate]. Qed.
+
+Theorem C11_word_refuted : ~ C11_word_statement.
+Proof.
+  intros (H & _). specialize (H Utf8 [0xE9; 32; 98] (0, 2) [] eq_refl eq_refl).
+  vm_compute in H. discriminate.
+Qed.
+
+(* Non-vacuity: "ab_1 😋cd\r\nx" under utf-16: between words, inside a word after an astral
+   character, beyond the end of the line, the offset on the second line *)
+Example C11_queries_nonvacuous :
+  let s := [97; 98; 95; 49; 32; 0x1F60B; 99; 100; 13; 10; 120] in
+  spec_word Utf16 s (0, 4) = Some [97; 98; 95; 49] /\ word_at_position Utf16 s (0, 4) = [97; 98; 95; 49] /\
+  word_at_position Utf16 s (0, 8) = [99; 100] /\ word_at_position Utf16 s (0, 99) = [99; 100] /\
+  word_at_position Utf16 s (0, 5) = [] /\ word_at_position Utf16 s (2, 0) = [] /\
+  query_guard_widths Utf16 s (0, 8) = true /\
+  spec_offset Utf32 s (1, 1) = Some 11 /\ offset_at_position Utf32 s (1, 1) = 11 /\
+  offset_guard_units Utf16 s (0, 8) = true /\ offset_at_position Utf16 s (0, 8) = 7 /\
+  offset_guard_units Utf16 s (1, 1) = false.
+Proof. vm_compute. repeat split. Qed.
